@@ -196,6 +196,7 @@ func c17Pure(tier string) *PureResult {
 	}
 	os.Unsetenv("GO_DCP__DCP_GROUP_MEMBERSHIP_TOTALMEMBERS")
 	os.Unsetenv("GO_DCP__DCP_GROUP_MEMBERSHIP_MEMBERNUMBER")
+	c17Switches(res, add)
 	c17Derived(res, add)
 	c17Sequences(res, add)
 	c17Sizes(tier, res, add)
@@ -565,4 +566,45 @@ func init() {
 			return []Instance{{Scenario: "c17_shared", Params: mustJSON(struct{}{}), Bound: 0, Shards: 2, Note: "explicitly set values as seen by a concurrent reader at every scheduling point (incl. every log call) of the real newDcp"}}
 		},
 	})
+}
+
+// the boolean switches (documented default: false): every subset set to true - after ApplyDefaults() every
+// switch has exactly the value it was given (a switch is never derived from another one), and the defaultable
+// options still get their documented defaults
+func c17Switches(res *PureResult, add func(string)) {
+	type sw struct {
+		name string
+		p    func(c *config.Dcp) *bool
+	}
+	sws := []sw{
+		{"api.disabled", func(c *config.Dcp) *bool { return &c.API.Disabled }},
+		{"healthCheck.disabled", func(c *config.Dcp) *bool { return &c.HealthCheck.Disabled }},
+		{"rollbackMitigation.disabled", func(c *config.Dcp) *bool { return &c.RollbackMitigation.Disabled }},
+		{"metadata.readOnly", func(c *config.Dcp) *bool { return &c.Metadata.ReadOnly }},
+		{"leaderElection.enabled", func(c *config.Dcp) *bool { return &c.LeaderElection.Enabled }},
+		{"dcp.config.disableChangeStreams", func(c *config.Dcp) *bool { return &c.Dcp.Config.DisableChangeStreams }},
+		{"secureConnection", func(c *config.Dcp) *bool { return &c.SecureConnection }},
+		{"debug", func(c *config.Dcp) *bool { return &c.Debug }},
+	}
+	for mask := 0; mask < 1<<len(sws); mask++ {
+		var c config.Dcp
+		for i, w := range sws {
+			*w.p(&c) = mask&(1<<i) != 0
+		}
+		c.ApplyDefaults()
+		c.ApplyDefaults()
+		res.Evaluations++
+		res.Distinct++
+		for i, w := range sws {
+			if got, want := *w.p(&c), mask&(1<<i) != 0; got != want {
+				var set []string
+				for j, x := range sws {
+					if mask&(1<<j) != 0 {
+						set = append(set, x.name)
+					}
+				}
+				add(fmt.Sprintf("switches %v set to true, all others left false: after ApplyDefaults %s = %v", set, w.name, got))
+			}
+		}
+	}
 }
